@@ -12,12 +12,17 @@
     * `merge` of adjacent parts is the inverse of `split_at` (contents, length, address) and it REJECTS the
       same two parts in the wrong order (they are not contiguous) — the implementation's address test;
     * `split_first` / `split_last`, `split_at_spare`.
+    * `into_flattened` (`Coll/Flatten.lean`): `len` arrays of `N` become `len * N` elements in order, the claimed
+      capacity `cap * N` is exactly the buffer, no destructor runs; zero-sized: `checked_mul`, `usize::MAX`.
   Independence of the parts afterwards is the arena's business (C01 + C02: separate live blocks).
 -/
 import BumpProof.Coll.Split
 import BumpProof.Lemmas.CollSplit
 import BumpProof.Lemmas.CollPrim
 import BumpProof.Coll.Zst
+import BumpProof.Coll.Flatten
+import BumpProof.Coll.Rev
+import BumpProof.Lemmas.CollWF
 
 namespace C16
 open Coll
@@ -223,5 +228,65 @@ example : splitOff ⟨16, 8⟩ ⟨Vec.mk' [1, 2, 3, 4, 5, 6] 2, 4096⟩ 1 3 =
 
 example : (⟨Vec.mk' [1, 2, 3, 4, 5, 6] 2, 4096⟩ : Part).Holds [1, 2, 3, 4, 5, 6] := by
   refine ⟨by decide, by decide⟩
+
+/-! ## `into_flattened` (`Coll/Flatten.lean`): `len` arrays of `N` become `len * N` elements -/
+
+/-- `into_flattened` of a well-formed vector of arrays (`BumpBox<[[T;N]]>`, `FixedBumpVec`, `BumpVec`, `MutBumpVec`):
+    the same elements in the same order, well-formed as a vector of `T`, the claimed capacity `cap * N` is
+    EXACTLY the buffer (no slot is claimed that is not there, none is lost), and no destructor runs -/
+theorem into_flattened_partitions (a : ArrVec) (xs : List Id) (h : a.Holds false xs) :
+    (intoFlattened a).1.slots = I xs ++ H ((intoFlattened a).1.cap - (intoFlattened a).1.len) ∧
+      (intoFlattened a).1.len = xs.length ∧ (intoFlattened a).1.abs = xs ∧
+      (intoFlattened a).2 = (intoFlattened a).1.cap ∧ (intoFlattened a).1.len ≤ (intoFlattened a).2 ∧
+      (intoFlattened a).1.dropLog = a.dropLog := by
+  obtain ⟨hl, hc, hf⟩ := h
+  simp only [Bool.false_eq_true, ↓reduceIte] at hf
+  have hmul : a.arrLen * a.n + (a.arrCap - a.arrLen) * a.n = a.arrCap * a.n := by
+    rw [← Nat.add_mul]; congr 1; omega
+  have hcap : (intoFlattened a).1.cap = a.arrCap * a.n := by
+    simp only [intoFlattened, Vec.cap, hf, List.length_append, Coll.length_I, Coll.length_H]; omega
+  have hlen : (intoFlattened a).1.len = xs.length := by simp [intoFlattened, hl]
+  have hsl : (intoFlattened a).1.slots = I xs ++ H ((intoFlattened a).1.cap - (intoFlattened a).1.len) := by
+    rw [hcap, hlen]
+    simp only [intoFlattened, hf]
+    congr 2; omega
+  refine ⟨hsl, hlen, Vec.WF.abs_eq hsl hlen.symm, by rw [hcap]; rfl, ?_, rfl⟩
+  rw [hlen]; simp only [intoFlattened]; rw [hl]; exact Nat.mul_le_mul_right _ hc
+
+/-- the same for `MutBumpVecRev` (the arrays sit at the END of the buffer; the end pointer is kept) -/
+theorem rev_into_flattened_partitions (a : ArrVec) (xs : List Id) (h : a.Holds true xs) :
+    (intoFlattened a).1.slots = H ((intoFlattened a).1.cap - (intoFlattened a).1.len) ++ I xs ∧
+      (intoFlattened a).1.len = xs.length ∧ (intoFlattened a).1.rabs = xs ∧
+      (intoFlattened a).2 = (intoFlattened a).1.cap := by
+  obtain ⟨hl, hc, hf⟩ := h
+  simp only [↓reduceIte] at hf
+  have hmul : a.arrLen * a.n + (a.arrCap - a.arrLen) * a.n = a.arrCap * a.n := by
+    rw [← Nat.add_mul]; congr 1; omega
+  have hcap : (intoFlattened a).1.cap = a.arrCap * a.n := by
+    simp only [intoFlattened, Vec.cap, hf, List.length_append, Coll.length_I, Coll.length_H]; omega
+  have hlen : (intoFlattened a).1.len = xs.length := by simp [intoFlattened, hl]
+  have hsl : (intoFlattened a).1.slots = H ((intoFlattened a).1.cap - (intoFlattened a).1.len) ++ I xs := by
+    rw [hcap, hlen]
+    simp only [intoFlattened, hf]
+    congr 2; omega
+  refine ⟨hsl, hlen, ?_, by rw [hcap]; rfl⟩
+  simp only [Vec.rabs, Vec.rstart]
+  rw [hsl]
+  simp
+
+/-- zero-sized `T`: the length is the product (or the `expect` panics on overflow), the capacity stays `usize::MAX` -/
+theorem zst_into_flattened (usizeMax n arrLen : Nat) :
+    intoFlattenedZst usizeMax n arrLen = (if arrLen * n ≤ usizeMax then some (arrLen * n, usizeMax) else none) := by
+  unfold intoFlattenedZst
+  by_cases h : arrLen * n > usizeMax
+  · simp [h] <;> omega
+  · simp [h] <;> omega
+
+/-- non-vacuity: two arrays of two in a buffer for three arrays -/
+example : (intoFlattened { n := 2, arrLen := 2, arrCap := 3, flat := I [1, 2, 3, 4] ++ H 2 }) =
+    ({ slots := I [1, 2, 3, 4] ++ H 2, len := 4 }, 6) := by decide
+
+example : ({ n := 2, arrLen := 2, arrCap := 3, flat := I [1, 2, 3, 4] ++ H 2 } : ArrVec).Holds false [1, 2, 3, 4] := by
+  refine ⟨by decide, by decide, by decide⟩
 
 end C16
